@@ -58,7 +58,7 @@ func c10Value(k int) (any, bool) {
 
 func c10Branches() int {
 	if nd.Thorough() {
-		return 5
+		return 4 // five branches of 17 value classes each did not finish within the hour
 	}
 	return 3
 }
@@ -77,8 +77,8 @@ func VerifC10If() {
 	marks := []string{"A", "B", "C", "D", "F"}
 	for i := 0; i < k; i++ {
 		kinds := c10Kinds
-		if i >= 2 && !nd.Thorough() {
-			kinds = 7 // quick tier: the third and later branches draw from the first seven classes
+		if i >= 2 {
+			kinds = 7 // the third and later branches draw from the first seven classes (both tiers)
 		}
 		v, truthy := c10Value(nd.Choice(kinds))
 		b[names[i]] = v
